@@ -411,7 +411,9 @@ package store
 // store but is assumed not to write it.
 //@ ghost var hCalls int -- number of OnDelete handler invocations so far
 //@ field store.(*Store).deleteSingle.deleteFn(ctx, height)
+//@   modifies ghost:hcHas, ghost:hcVal, ghost:icHas, ghost:icVal -- a handler may read the store: the read-through caches may (re)cache anything the store serves
 //@   effect hCalls := old(hCalls) + 1
+//@   ensures hdrCacheOK() && idxCacheOK()
 
 // the header to delete is found through the on-disk index or, when not flushed yet, in the pending batch
 //@ pure hashAt(s, h) = ite(dsHas[kHeight(h)], dsVal[kHeight(h)], s.pending.headers[h].Hash())
@@ -421,7 +423,7 @@ package store
 //@   unreachable return2 : datastore read errors other than ErrNotFound are not modelled (store.spec)
 //@   requires storeINV(s) && !isBatch(s.ds)
 //@   ghost herr error := result0 of call deleteFn #0
-//@   modifies $now, ghost:hcHas, ghost:icHas, ghost:icVal, ghost:hCalls, ghost:dsHas, ghost:dsWrites, ghost:dsDeletes, MH_Int_Hdr_has, MH_Str_Int_has
+//@   modifies $now, ghost:hcHas, ghost:hcVal, ghost:icHas, ghost:icVal, ghost:hCalls, ghost:dsHas, ghost:dsWrites, ghost:dsDeletes, MH_Int_Hdr_has, MH_Str_Int_has
 //@   before deleteFn [C14] still-readable: dsHas == old(dsHas) && dsVal == old(dsVal) && unchanged("MH_Int_Hdr_has") && unchanged("MH_Str_Int_has") && (dsHas[kHeight(height)] || has(s.pending.headers, height))
 //@   ensures [C08] inv: storeINV(s)
 //@   ensures [C14] all-handlers-ran: result == nil ==> hCalls == old(hCalls) + len(onDelete)
@@ -431,10 +433,10 @@ package store
 //@   ensures [C06] failed-height-intact: result != nil && old(dsHas)[kHeight(height)] ==> dsHas[kHeight(height)] && (dsHas[kHash(old(hashAt(s, height)))] <==> old(dsHas)[kHash(old(hashAt(s, height)))]) -- a deletion that fails must not leave a height that is indexed but unreadable (a hole below Head)
 //@   ensures [C08] pending-others-untouched: forall h uint64 @ has(s.pending.headers, h) :: h != height ==> (has(s.pending.headers, h) <==> old(has(s.pending.headers, h)))
 //@   ensures [C08] missing-means-absent: result != nil && errors.Is(result, errMissingHeader) ==> !old(dsHas)[kHeight(height)] && !old(has(s.pending.headers, height)) && !has(s.pending.headers, height) && dsHas == old(dsHas) && hCalls == old(hCalls)
-//@   ensures [C08] index-cache-only-shrinks: forall k uint64 @ icHas[k] :: icHas[k] ==> old(icHas)[k]
 //@ loop 0:
 //@   invariant bounds: -1 <= rangeindex && rangeindex + 1 <= len(onDelete)
 //@   invariant counted: hCalls == old(hCalls) + rangeindex + 1
+//@   invariant caches: hdrCacheOK() && idxCacheOK()
 //@   invariant untouched: dsHas == old(dsHas) && dsVal == old(dsVal) && dsDeletes == old(dsDeletes) && unchanged("MH_Int_Hdr_has") && unchanged("MH_Str_Int_has") && (dsHas[kHeight(height)] || has(s.pending.headers, height)) && hash == hashAt(s, height)
 
 //@ pure gone(s, h) = !dsHas[kHeight(h)] && !has(s.pending.headers, h) && !icHas[h]
@@ -442,7 +444,7 @@ package store
 //@ func (*Store).deleteSequential(s, ctx, from, to)
 //@   props C08, C14
 //@   requires storeINV(s) && !isBatch(s.ds) && from <= to && to - from < 4611686018427387904
-//@   modifies $now, ghost:hcHas, ghost:icHas, ghost:icVal, ghost:hCalls, ghost:dsHas, ghost:dsWrites, ghost:dsDeletes, MH_Int_Hdr_has, MH_Str_Int_has
+//@   modifies $now, ghost:hcHas, ghost:hcVal, ghost:icHas, ghost:icVal, ghost:hCalls, ghost:dsHas, ghost:dsWrites, ghost:dsDeletes, MH_Int_Hdr_has, MH_Str_Int_has
 //@   ensures [C08] inv: storeINV(s)
 //@   ensures [C08] progress-bounds: from <= result0 && result0 <= to
 //@   ensures [C08] complete-on-success: result2 == nil ==> result0 == to
@@ -479,10 +481,10 @@ package store
 //@   ensures [C08] only-pointer-keys: forall k Key @ dsHas[k] :: k != headKey ==> (dsHas[k] <==> old(dsHas)[k])
 
 //@ func (*Store).deinit(s)
-//@   props C08
+//@   props C08, C04
 //@   requires s.heightIndex != nil && s.heightSub != nil
 //@   modifies ghost:hcHas, ghost:icHas, AP_set, AP_val_Hdr, AT_u64, sub.count, MH_Int_Int_has, MH_Int_Int_val, ghost:arrived
-//@   ensures [C08] emptied: !apSet(s.contiguousHead) && !apSet(s.tailHeader) && hcHas == emptyStrSet && icHas == emptyIntSet
+//@   ensures [C08,C04] emptied: !apSet(s.contiguousHead) && !apSet(s.tailHeader) && hcHas == emptyStrSet && icHas == emptyIntSet
 
 // wipe drops the whole store: nothing of it may stay readable or come back (C08)
 //@ func (*Store).wipe(s, ctx)
@@ -500,7 +502,7 @@ package store
 //@ func (*Store).deleteParallel(s, ctx, from, to)
 //@   props C08, C14
 //@   requires storeINV(s) && !isBatch(s.ds) && from <= to && deleteRangeParallelThreshold > 0
-//@   modifies $now, ghost:hcHas, ghost:icHas, ghost:icVal, ghost:hCalls, ghost:dsHas, ghost:dsWrites, ghost:dsDeletes, MH_Int_Hdr_has, MH_Str_Int_has, EH_Int, F_store_result_err, F_store_result_height, F_store_result_missing, EH_Err, F_keytransform_Datastore_KeyTransform, F_keytransform_Datastore_child, F_sync_Once__, F_sync_Once_done, F_sync_Once_m, ghost:dsVal
+//@   modifies $now, ghost:hcHas, ghost:hcVal, ghost:icHas, ghost:icVal, ghost:hCalls, ghost:dsHas, ghost:dsWrites, ghost:dsDeletes, MH_Int_Hdr_has, MH_Str_Int_has, EH_Int, F_store_result_err, F_store_result_height, F_store_result_missing, EH_Err, F_keytransform_Datastore_KeyTransform, F_keytransform_Datastore_child, F_sync_Once__, F_sync_Once_done, F_sync_Once_m, ghost:dsVal
 //@   assumes storeINV(s)
 //@   assumes from <= result0 && result0 <= to && (result2 == nil ==> result0 == to)
 //@   assumes forall h uint64 :: from <= h && h < result0 ==> gone(s, h)
@@ -514,7 +516,7 @@ package store
 //@ func (*Store).deleteRangeRaw(s, ctx, from, to)
 //@   props C08, C14
 //@   requires storeINV(s) && !isBatch(s.ds) && from <= to && deleteRangeParallelThreshold > 0 && deleteRangeParallelThreshold <= 4611686018427387904
-//@   modifies $now, ghost:hcHas, ghost:icHas, ghost:icVal, ghost:hCalls, ghost:dsHas, ghost:dsWrites, ghost:dsDeletes, MH_Int_Hdr_has, MH_Str_Int_has, EH_Int, F_store_result_err, F_store_result_height, F_store_result_missing, EH_Err, F_keytransform_Datastore_KeyTransform, F_keytransform_Datastore_child, F_sync_Once__, F_sync_Once_done, F_sync_Once_m, ghost:dsVal
+//@   modifies $now, ghost:hcHas, ghost:hcVal, ghost:icHas, ghost:icVal, ghost:hCalls, ghost:dsHas, ghost:dsWrites, ghost:dsDeletes, MH_Int_Hdr_has, MH_Str_Int_has, EH_Int, F_store_result_err, F_store_result_height, F_store_result_missing, EH_Err, F_keytransform_Datastore_KeyTransform, F_keytransform_Datastore_child, F_sync_Once__, F_sync_Once_done, F_sync_Once_m, ghost:dsVal
 //@   ensures [C08] inv: storeINV(s)
 //@   ensures [C08] progress-bounds: from <= result0 && result0 <= to
 //@   ensures [C08] complete-on-success: result2 == nil ==> result0 == to
